@@ -109,8 +109,13 @@ func NewInterceptingListener(
 		baseTlsConf:                  config.BaseTlsConfiguration,
 		fetchCredsFn:                 config.FetchCredsFunc,
 		generateServerCertificatesFn: config.GenerateServerCertificatesFunc,
-		options:                      config.Options,
 	}
+	// Each handshake appends its own options to this slice, concurrently with
+	// other handshakes; give it no spare capacity so that every append copies
+	// instead of writing into a backing array shared with the caller and with
+	// the other connections
+	l.options = make([]nodeenrollment.Option, len(config.Options))
+	copy(l.options, config.Options)
 
 	if l.fetchCredsFn == nil {
 		l.fetchCredsFn = func(
